@@ -55,7 +55,7 @@ type ChildRes struct {
 
 // libCycles: clean Close + NewChainExt cycles a library-mode child performs on the re-opened directory (which of two equally high
 // leaves FindFarthestNode returns depends on Go's map order - every start is a new draw)
-const libCycles = 4
+const libCycles = 3
 
 type SecondCap struct {
 	Name  string `json:"name"`  // directory name
